@@ -511,6 +511,26 @@ fn main() {
             }
             json!({"members": n})
         }
+        // the harness's enumeration of a circuit family (bin/vlib.py circuit_family_agreement compares it with mc/MC_CircFamily.tla)
+        "circfamily" => {
+            let mut n = 0usize;
+            for e in args.iter().enumerate().filter(|(_, a)| *a == "--enum").map(|(i, _)| args[i + 1].clone()) {
+                let p: Vec<&str> = e.split(',').collect();
+                let (nq, maxlen) = (p[0].parse::<usize>().unwrap(), p[1].parse::<usize>().unwrap());
+                let al = match p[2] {
+                    "all" => circ::Alphabet::all(),
+                    "unitary" => circ::Alphabet::unitary(),
+                    "small" => circ::Alphabet { oneq: vec!["S", "T", "NOT", "HAD"], phs: vec![3], threeq: vec![], ..circ::Alphabet::all() },
+                    _ => panic!("alphabet"),
+                };
+                circ::enum_circuits(nq, maxlen, &al, &mut |gs| {
+                    tr.group();
+                    tr.emit(json!({"k": "member", "c": circ::ag_json(nq, gs)}));
+                    n += 1;
+                });
+            }
+            json!({"members": n})
+        }
         "phase" => eng_phase::record(&args, seed, &mut tr),
         "f2" => eng_f2::record(&args, seed, &mut tr),
         "ranktree" => eng_ranktree::record(&args, seed, &mut tr),
